@@ -459,6 +459,10 @@ fn part_cli(args: &Args, rep: &Reporter) -> J {
             p.server_out = None;
             let case = |extra: J| { let mut j = case_json(c); j["part"] = json!("cli"); j["project"] = p.to_json(); j["detail"] = extra; j };
             runs.fetch_add(1, Ordering::Relaxed);
+            if has_cycle(c) {
+                // the library route runs in this process: record the case before unbounded recursion could kill it
+                announce(c);
+            }
             match run_and_compare(&p, "c13") {
                 Err(pn) => rep.report(Violation { key: format!("cli.library_panic@{}", pn.key()), what: format!("library entry points panic at {}: {}", pn.site, pn.msg), case: case(json!({})) }),
                 Ok(Err(e)) => rep.report(Violation { key: "machinery.clilayer".into(), what: e, case: case(json!({})) }),
